@@ -53,6 +53,15 @@ pub fn seed(name: &str) -> Vec<Ev> {
         // the dispute is confirmed and a conflicting spend of its output sits in the node's mempool: the
         // penalty bounces (-26) for as long as the node keeps that transaction
         "S10" => vec![Ev::Register(1), mine(vec![TxName::D(1)]), Ev::External(TxName::PAlt(1))],
+        // a tracker whose penalty is unconfirmed; the block with the dispute is reorged out and the dispute mined again,
+        // but the node has dropped the penalty from its mempool meanwhile (the tower has not polled yet)
+        "S11" => vec![
+            Ev::Register(1),
+            add(1, 1, Blob::Valid),
+            mine(vec![TxName::D(1)]),
+            Ev::Reorg { depth: 1, how: Replacement::Same },
+            Ev::Evict(TxName::P(1)),
+        ],
         _ => panic!("unknown seed {name}"),
     }
 }
@@ -300,7 +309,7 @@ fn c01_alphabet(tier: Tier) -> Alphabet {
     a.mine_dispute = true;
     a.mine_dispute_and_penalty = true;
     a.externals = vec![TxName::P(1)];
-    a.evictions = vec![TxName::PAlt(1)];
+    a.evictions = vec![TxName::PAlt(1), TxName::P(1)];
     a.reorgs = vec![(1, Replacement::Same), (1, Replacement::Unconfirm), (2, Replacement::Delay)];
     a.restart = true;
     a.max_deviations = if tier == Tier::Quick { 1 } else { 2 };
@@ -309,7 +318,7 @@ fn c01_alphabet(tier: Tier) -> Alphabet {
 
 fn c01_models(tier: Tier, props: Vec<&'static str>) -> Vec<(TowerModel, usize)> {
     let mut models = Vec::new();
-    let seeds: &[(&str, usize, usize)] = &[("S0", 5, 7), ("S1", 4, 6), ("S2", 4, 6), ("S3", 4, 5), ("S9", 4, 6), ("S10", 4, 6)];
+    let seeds: &[(&str, usize, usize)] = &[("S0", 5, 7), ("S1", 4, 6), ("S2", 4, 6), ("S3", 4, 5), ("S9", 4, 6), ("S10", 4, 6), ("S11", 3, 5)];
     for (sd, dq, dt) in seeds {
         for txindex in if tier == Tier::Quick { vec![false] } else { vec![false, true] } {
             models.push((
